@@ -126,7 +126,13 @@ def _apply(conf, cfgmod, holders, op, trace):
         raise _Boom()
       return 'ret'
     kw = {KEYS[k]: POOL[v] for k, v in cfg}
-    if style == 'partial' and kw:
+    key = repr(op)
+    if style == 'early' and key in _DECORATED:
+      # decorated when the sequence started (a module-level function decorated at import time); equal ops share one
+      # decorated callable, so a later one is a second call of it
+      f, box = _DECORATED[key]
+      box['trace'], box['args'] = trace, (conf, cfgmod, holders)
+    elif style == 'partial' and kw:
       f = conf.save_and_restore(**kw)(wrapped)
     else:
       f = conf.save_and_restore(wrapped, **kw)
@@ -202,9 +208,32 @@ def run_real(case):
   conf = cfgmod._Configuration()
   holders = {}
   trace = []
+  _DECORATED.clear()
+  for op in case['ops']:
+    op = _tup(op)
+    if op[0] == 'S' and op[4] == 'early' and repr(op) not in _DECORATED:
+      _DECORATED[repr(op)] = _decorate_early(conf, op)
   for op in case['ops']:
     _apply(conf, cfgmod, holders, _tup(op), trace)
   return trace
+
+
+_DECORATED = {}
+
+
+def _decorate_early(conf, op):
+  _, raises, cfg, inner, style = op
+  box = {}
+
+  def wrapped():
+    c, cfgmod, holders = box['args']
+    box['trace'].append('ok/' + _observe(c, cfgmod, holders))
+    for i in inner:
+      _apply(c, cfgmod, holders, i, box['trace'])
+    if raises:
+      raise _Boom()
+    return 'ret'
+  return conf.save_and_restore(wrapped, **{KEYS[k]: POOL[v] for k, v in cfg}), box
 
 
 def _tup(op):
@@ -292,12 +321,17 @@ def _rand_op(rng, depth=0):
     return ['A', rng.randrange(5), rng.randrange(5)]
   if depth < 2:
     return ['S', rng.random() < 0.5, kv(rng.randint(0, 2)),
-            [_rand_op(rng, depth + 1) for _ in range(rng.randint(0, 3))], rng.choice(['direct', 'partial'])]
+            [_rand_op(rng, depth + 1) for _ in range(rng.randint(0, 3))], rng.choice(['direct', 'partial', 'early'])]
   return ['R']
 
 
 def gen_cases(rng, tier):
   cases = list(CORPUS)
+  # a function decorated long before it is called, and called twice
+  early = ['S', False, [[0, 4]], [['L', True, False, [[1, 0]], 'dict']], 'early']
+  for pre in ([], [['D', 0, 1, False], ['D', 1, 2, False], ['L', True, False, [[0, 2], [1, 3]], 'dict']]):
+    for mid in ([], [['R']], [['L', True, False, [[1, 5]], 'kwargs']]):
+      cases.append({'ops': [['D', 0, 1, False], ['D', 1, None, False]] + pre[2:] + [early] + mid + [early, ['R'], early]})
   maxlen = 2 if tier == 'quick' else 3
   for n in range(1, maxlen + 1):
     for ops in itertools.product(ALPHABET, repeat=n):
